@@ -73,6 +73,7 @@ func (f *Fam) Exec(op string) (obs string, fails []common.Failure) {
 		}
 	case "commit":
 		obs = f.doCommit()
+		f.recordCommitted()
 	case "award", "burn":
 		r := f.doKeeper(w)
 		if f.dead { // a panic in a keeper API call is not a chain halt: keep the chain, report the panic
@@ -96,6 +97,9 @@ func (f *Fam) Exec(op string) (obs string, fails []common.Failure) {
 		after := f.app.Snap()
 		obs = r + " | " + after.String()
 		f.checkTx(before, after, r, bz, msg, t, fail)
+	case "mon.query":
+		f.monQuery(fail)
+		return "done", fails
 	case "mon.export":
 		f.monExport(fail)
 		return "done", fails
